@@ -13,7 +13,7 @@ import os
 
 from crosshair.tracers import NoTracing
 
-from harness.c13_common import FILE_STATES, HASH_STATES, INDEX_STATES, NAMES, TEXTS, VALID, strip_zids
+from harness.c13_common import FILE_STATES, HASH_STATES, INDEX_STATES, NAMES, TEXTS, VALID, mask_new_zids, strip_zids
 from vlib import crashreal
 from vlib.hx import V
 
@@ -45,7 +45,7 @@ def real_schedule(n):
     s0, s1, mode, k, torn = TABLE[n]
     cmd = "create" if mode == 3 else "reindex"
     rels = [[], [NAMES[0]], [NAMES[1]], []][mode]
-    return crashreal.schedule(NAMES, TEXTS, (VALID[s0], VALID[s1]), TABLES, cmd, rels, k, bool(torn), strip_zids)
+    return crashreal.schedule(NAMES, TEXTS, (VALID[s0], VALID[s1]), TABLES, cmd, rels, k, bool(torn), strip_zids, mask_new_zids)
 
 
 def converge_real(n: int) -> bool:
